@@ -121,7 +121,14 @@ def roundtrip(entry, text, mode):
     try:
         a2 = _parse(entry, t1)
     except errors.EdgeDBError as e:
-        return ('fail', f'reparse-rejected:{_msgclass(str(e))}',
+        tag = ''
+        import re as _re
+        if 'ORDER BY' in str(e) and _re.search(r'(`order`|\(\s*order\s*\))\s*\)*\s*by\b', text, _re.I) \
+                and _re.search(r'(?<![`\w])order\s+by\b', t1, _re.I):
+            # root cause tag: an identifier spelled `order` ends the USING clause of a GROUP
+            # statement; printed bare, the lexer merges it with the following BY
+            tag = ':identifier-order-merged-with-by'
+        return ('fail', f'reparse-rejected:{_msgclass(str(e))}{tag}',
                 f'printed text is rejected by the parser: {type(e).__name__}: {e}\n'
                 f'--- printed text ---\n{t1[:1500]}', c1)
     except RecursionError:
